@@ -110,7 +110,8 @@ class Reader:
                 return
             # res["Header"] = name
             if isinstance(t, ast.Subscript) and isinstance(t.value, ast.Name) and isinstance(t.slice, ast.Constant):
-                self.updates.append((conds, ("dict", t.value.id), t.slice.value, self.desc(s.value), s.lineno))
+                v = ("name", s.value.id) if isinstance(s.value, ast.Name) else self.desc(s.value)
+                self.updates.append((conds, ("dict", t.value.id), t.slice.value, v, s.lineno))
                 return
             raise AnalysisError("aggregation section: unsupported assignment at line %d" % s.lineno)
         if isinstance(s, ast.AugAssign) and isinstance(s.target, ast.Name) and isinstance(s.op, ast.Add):
@@ -119,6 +120,14 @@ class Reader:
                 return
             self.env[s.target.id] = ("Add",) + tuple(sorted([self.env.get(s.target.id, ("name", s.target.id)), self.desc(s.value)], key=repr))
             return
+        if isinstance(s, ast.If) and len(s.body) == 1 and len(s.orelse) == 1 and isinstance(s.body[0], ast.Assign) and isinstance(s.orelse[0], ast.Assign) \
+                and isinstance(s.body[0].targets[0], ast.Name) and isinstance(s.orelse[0].targets[0], ast.Name) \
+                and s.body[0].targets[0].id == s.orelse[0].targets[0].id:
+            pa = parse_pred(s.body[0].value, self.frame, self.res)
+            pb = parse_pred(s.orelse[0].value, self.frame, self.res)
+            if pa is not None and pb is not None:
+                self.env[s.body[0].targets[0].id] = ("pred", frozenset({("__ite__", ast.unparse(s.test), tuple(sorted(pa, key=repr)), tuple(sorted(pb, key=repr)))}))
+                return
         if isinstance(s, ast.If):
             c = ast.unparse(s.test)
             # `if <emptiness test>: continue` records a skip
@@ -169,7 +178,11 @@ def show(d):
     t = d[0]
     if t == "sel":
         conds, col, red = d[1], d[2], d[3]
-        return "%s(%s | %s)" % (red, col, " & ".join("%s%s%s" % (c, o, show(v)) for c, o, v in conds) or "all rows")
+        def sc(c):
+            if c[0] == "__ite__":
+                return "(%s if %s else %s)" % (" & ".join(sc(x) for x in c[2]), c[1], " & ".join(sc(x) for x in c[3]))
+            return "%s%s%s" % (c[0], c[1], show(c[2]))
+        return "%s(%s | %s)" % (red, col, " & ".join(sc(c) for c in conds) or "all rows")
     if t == "const":
         return repr(d[1])
     if t == "name":
